@@ -181,6 +181,10 @@ func (m *monitor) filter(update database.Update) ovsdb.TableUpdates {
 			case ru.Modify() && selected.Modify():
 				fallthrough
 			case ru.Delete() && selected.Delete():
+				if ru.Modify() && ru2.Modify != nil && len(*filterColumns(ru2.Modify, cols)) == 0 {
+					// none of the modified columns is monitored
+					return nil
+				}
 				ru.New = filterColumns(ru.New, cols)
 				ru.Old = filterColumns(ru.Old, cols)
 				tu[uuid] = ru
@@ -214,6 +218,10 @@ func (m *monitor) filter2(update database.Update) ovsdb.TableUpdates2 {
 				ru2.Insert = filterColumns(ru2.Insert, cols)
 				ru2.Modify = filterColumns(ru2.Modify, cols)
 				ru2.Delete = filterColumns(ru2.Delete, cols)
+				if ru2.Insert == nil && ru2.Delete == nil && ru2.Modify != nil && len(*ru2.Modify) == 0 {
+					// none of the modified columns is monitored
+					return nil
+				}
 				tu2[uuid] = &ru2
 			}
 			return nil
